@@ -113,11 +113,8 @@ theorem C01_virtual_evidence (K : Var → Nat) (u v : Var) (huv : u ≠ v) (hu :
 theorem C01_barren_leaf (K : Var → Nat) (c : Factor) (fs : List Factor) (u : Var)
     (hnorm : ∀ a, Bounded K a → sumVar K u c.den a = 1) (hu : ∀ f ∈ fs, u ∉ f.scope)
     (a : Asg) (ha : Bounded K a) :
-    sumVar K u (jointDen (c :: fs)) a = jointDen fs a := by
-  have : sumVar K u (jointDen (c :: fs)) a = sumVar K u (fun b => jointDen fs b * c.den b) a := by
-    congr 1; funext b; rw [jointDen_cons, mul_comm]
-  rw [this, sumVar_mul_const K u (jointDen fs) c.den (fun b x => jointDen_upd_notin u fs hu b x) a,
-    hnorm a ha, mul_one]
+    sumVar K u (jointDen (c :: fs)) a = jointDen fs a :=
+  barren_leaf K c fs u hnorm hu a ha
 
 /-! non-vacuity: a two-factor network, an order and a bounded state meeting the hypotheses -/
 example : AllWF (fun _ => 2) [Factor.mk [0] [2] #[1/2, 1/2], Factor.mk [1, 0] [2, 2] #[1/3, 1/4, 2/3, 3/4]] ∧
